@@ -424,6 +424,39 @@ func (e *FnEnc) loopHeader(b *ssa.BasicBlock, li *loopInfo, fwd []*ssa.BasicBloc
 			e.obligeClause(envE, c, fmt.Sprintf("loop%d.inv%d.entry", li.ordinal, k+1), "inv-entry", e.curGuard, fmt.Sprintf("%s:%d", shortFile(c.File), c.Line))
 		}
 	}
+	// local allocations made before the loop and written inside it are modification targets by construction
+	for _, lb := range e.fn.Blocks {
+		if !li.blocks[lb] {
+			continue
+		}
+		for _, in := range lb.Instrs {
+			st, ok := in.(*ssa.Store)
+			if !ok {
+				continue
+			}
+			root := st.Addr
+			for {
+				if fa, ok := root.(*ssa.FieldAddr); ok {
+					root = fa.X
+					continue
+				}
+				if ia, ok := root.(*ssa.IndexAddr); ok {
+					if _, isSl := ia.X.Type().Underlying().(*types.Slice); isSl {
+						break
+					}
+					root = ia.X
+					continue
+				}
+				break
+			}
+			if al, ok := root.(*ssa.Alloc); ok && !li.blocks[al.Block()] {
+				if av, ok := e.vals[al]; ok {
+					hn := e.sorts().CellHeap(al.Type().Underlying().(*types.Pointer).Elem()).Name
+					li.modRefs[hn] = append(li.modRefs[hn], modT{ref: av.T})
+				}
+			}
+		}
+	}
 	// 2. havoc
 	mod := e.loopModSet(li)
 	for _, p := range phis {
